@@ -723,4 +723,102 @@ theorem getD_append_at {α : Type} (l1 l2 : List α) (n : Nat) (d : α) (hl : l1
   simp only [List.getD_eq_getElem?_getD]
   rw [List.getElem?_append_right (by omega), hl, Nat.sub_self]
 
+/-! ## Find / Last / End -/
+
+theorem findLoop_seg (v : Int) : ∀ (post pre : List Nat) (p : Nat) (h : Heap) (fuel : Nat),
+    SegL h (pre ++ p :: post) none → (pre ++ p :: post).Nodup → post.length + 1 ≤ fuel →
+    ∃ pre' p' post', pre ++ p :: post = pre' ++ p' :: post' ∧
+      pre'.length = pre.length + (post.map h.val).findIdx (· == v) ∧ findLoop fuel h p v = .ok p' := by
+  intro post
+  induction post with
+  | nil =>
+    intro pre p h fuel hs hn hf
+    obtain ⟨f, rfl⟩ : ∃ f, fuel = f + 1 := ⟨fuel - 1, by omega⟩
+    exact ⟨pre, p, [], rfl, by simp, by simp [findLoop, atEnd_cell h pre p [] hs hn]⟩
+  | cons q r ih =>
+    intro pre p h fuel hs hn hf
+    obtain ⟨f, rfl⟩ : ∃ f, fuel = f + 1 := ⟨fuel - 1, by omega⟩
+    by_cases hv : h.val q = v
+    · refine ⟨pre, p, q :: r, rfl, by simp [List.findIdx_cons, hv], ?_⟩
+      simp [findLoop, atEnd_cell h pre p (q :: r) hs hn, get_cell h pre p (q :: r) hs hn, hv]
+    · obtain ⟨pre', p', post', e1, e2, e3⟩ := ih (pre ++ [p]) q h f (by simpa using hs) (by simpa using hn)
+        (by simp at hf; omega)
+      refine ⟨pre', p', post', by simpa using e1, ?_, ?_⟩
+      · simp only [List.length_append, List.length_cons, List.length_nil] at e2
+        have hb : (h.val q == v) = false := by simpa using hv
+        rw [List.map_cons, List.findIdx_cons, hb]
+        simp only [cond_false]
+        omega
+      · simp [findLoop, atEnd_cell h pre p (q :: r) hs hn, get_cell h pre p (q :: r) hs hn, hv,
+          next_cell h pre p q r hs hn, e3]
+
+theorem lastLoop_seg : ∀ (r pre : List Nat) (p q : Nat) (h : Heap) (fuel : Nat),
+    SegL h (pre ++ p :: q :: r) none → (pre ++ p :: q :: r).Nodup → r.length + 1 ≤ fuel →
+    ∃ pre' p' t, pre ++ p :: q :: r = pre' ++ [p', t] ∧ lastLoop fuel h p = .ok p' := by
+  intro r
+  induction r with
+  | nil =>
+    intro pre p q h fuel hs hn hf
+    obtain ⟨f, rfl⟩ : ∃ f, fuel = f + 1 := ⟨fuel - 1, by omega⟩
+    have hl := cell_link h pre p [q] none hs
+    have hq := cell_link h (pre ++ [p]) q [] none (by simpa using hs)
+    exact ⟨pre, p, q, rfl, by simp [lastLoop, tgt, hl, hq]⟩
+  | cons q' r ih =>
+    intro pre p q h fuel hs hn hf
+    obtain ⟨f, rfl⟩ : ∃ f, fuel = f + 1 := ⟨fuel - 1, by omega⟩
+    have hl := cell_link h pre p (q :: q' :: r) none hs
+    have hq := cell_link h (pre ++ [p]) q (q' :: r) none (by simpa using hs)
+    obtain ⟨pre', p', t, e1, e2⟩ := ih (pre ++ [p]) q q' h f (by simpa using hs) (by simpa using hn)
+      (by simp at hf; omega)
+    exact ⟨pre', p', t, by simpa using e1,
+      by simp [lastLoop, tgt, hl, hq, next_cell h pre p q (q' :: r) hs hn, e2]⟩
+
+/-- `Last`: the cursor in front of the last element (the end of an empty list) -/
+theorem last_wf (h : Heap) (ids : List Nat) (hw : WF h (0 :: ids)) :
+    ∃ pre' p' post', 0 :: ids = pre' ++ p' :: post' ∧ pre'.length = ids.length - 1 ∧ last h = .ok p' := by
+  have hlen := hw.len
+  simp only [List.length_cons] at hlen
+  cases ids with
+  | nil => exact ⟨[], 0, [], rfl, rfl, by simp [last, atEnd_cell h [] 0 [] hw.seg hw.nodup]⟩
+  | cons q r =>
+    obtain ⟨pre', p', t, e1, e2⟩ := lastLoop_seg r [] 0 q h (h.size + 1) hw.seg hw.nodup
+      (by simp at hlen; omega)
+    refine ⟨pre', p', [t], by simpa using e1, ?_, ?_⟩
+    · have := congrArg List.length e1
+      simp at this; simp; omega
+    · simp [last, atEnd_cell h [] 0 (q :: r) hw.seg hw.nodup, e2]
+
+/-- `End`: the cursor behind the last element -/
+theorem end_wf (h : Heap) (ids : List Nat) (hw : WF h (0 :: ids)) :
+    ∃ pre' p', 0 :: ids = pre' ++ [p'] ∧ end_ h = .ok p' := by
+  have hlen := hw.len
+  simp only [List.length_cons] at hlen
+  cases ids with
+  | nil =>
+    exact ⟨[], 0, rfl, by simp [end_, last, atEnd_cell h [] 0 [] hw.seg hw.nodup, next_end h [] 0 hw.seg hw.nodup]⟩
+  | cons q r =>
+    obtain ⟨pre', p', t, e1, e2⟩ := lastLoop_seg r [] 0 q h (h.size + 1) hw.seg hw.nodup
+      (by simp at hlen; omega)
+    simp only [List.nil_append] at e1
+    have hs := hw.seg; have hn := hw.nodup
+    rw [e1] at hs hn
+    refine ⟨pre' ++ [p'], t, by simpa using e1, ?_⟩
+    have := next_cell h pre' p' t [] (by simpa using hs) (by simpa using hn)
+    simp [end_, last, atEnd_cell h [] 0 (q :: r) hw.seg hw.nodup, e2, this]
+
+theorem find_wf (h : Heap) (ids : List Nat) (hw : WF h (0 :: ids)) (v : Int) :
+    ∃ pre' p' post', 0 :: ids = pre' ++ p' :: post' ∧
+      pre'.length = (ids.map h.val).findIdx (· == v) ∧ find h v = .ok p' := by
+  have hlen := hw.len
+  simp only [List.length_cons] at hlen
+  obtain ⟨pre', p', post', e1, e2, e3⟩ := findLoop_seg v ids [] 0 h (h.size + 1) hw.seg hw.nodup (by omega)
+  exact ⟨pre', p', post', by simpa using e1, by simpa using e2, e3⟩
+
+theorem at_wf (h : Heap) (ids : List Nat) (hw : WF h (0 :: ids)) (n : Nat) :
+    ∃ pre' p' post', 0 :: ids = pre' ++ p' :: post' ∧ pre'.length = min n ids.length ∧ at_ h n = .ok p' := by
+  have hlen := hw.len
+  simp only [List.length_cons] at hlen
+  obtain ⟨pre', p', post', e1, e2, e3⟩ := atLoop_seg ids [] 0 h (h.size + 1) n hw.seg hw.nodup (by omega)
+  exact ⟨pre', p', post', by simpa using e1, by simpa using e2, e3⟩
+
 end MdsVerif.Proofs.Mlink
